@@ -4,6 +4,7 @@ import (
 	"fmt"
 	"time"
 
+	storetypes "github.com/cosmos/cosmos-sdk/store/v2/types"
 	sdk "github.com/cosmos/cosmos-sdk/types"
 
 	clienttypes "github.com/cosmos/ibc-go/v11/modules/core/02-client/types"
@@ -37,8 +38,81 @@ type hist struct {
 	encs [][]any
 
 	proofIDs map[string]string
+	extra    []extraRec
 	pre      []any
 	modes    map[string]int
+}
+
+// extraRec is a record of another kind produced while a history runs (emitted by finish).
+type extraRec struct {
+	kind string
+	in   any
+	out  any
+	tag  string
+}
+
+// recStore wraps one client's prefix store and records every write (Set/Delete) that goes through it.
+type recStore struct {
+	storetypes.KVStore
+	w *[][]string
+}
+
+func (r recStore) Set(key, value []byte) {
+	*r.w = append(*r.w, []string{"set", hx.H(key)})
+	r.KVStore.Set(key, value)
+}
+
+func (r recStore) Delete(key []byte) {
+	*r.w = append(*r.w, []string{"del", hx.H(key)})
+	r.KVStore.Delete(key)
+}
+
+// traceRecover runs the real 07-tendermint CheckSubstituteAndUpdateState on write-tracing stores (on a discarded
+// cache context) and records the writes per namespace and the subject's metadata for the copied height.
+func (h *hist) traceRecover(subj, subst string) {
+	cctx, _ := h.ctx().CacheContext()
+	k := h.e.ibc().ClientKeeper
+	cs, ss := h.e.tmState(cctx, subj), h.e.tmState(cctx, subst)
+	if cs == nil || ss == nil || subj == subst {
+		return
+	}
+	pre := []any{h.e.projClient(cctx, subj), h.e.projClient(cctx, subst)}
+	sw, tw := [][]string{}, [][]string{}
+	sStore := recStore{KVStore: k.ClientStore(cctx, subj), w: &sw}
+	tStore := recStore{KVStore: k.ClientStore(cctx, subst), w: &tw}
+	res := outcome(func() error {
+		return cs.CheckSubstituteAndUpdateState(cctx, h.e.A.App.AppCodec(), sStore, tStore, ss)
+	})
+	plain := k.ClientStore(cctx, subj)
+	meta := map[string]any{"h": hj(ss.LatestHeight), "pt": nil, "ph": nil, "it": nil}
+	if v, ok := ibctm.GetProcessedTime(plain, ss.LatestHeight); ok {
+		meta["pt"] = hx.U(v)
+	}
+	if v, ok := ibctm.GetProcessedHeight(plain, ss.LatestHeight); ok {
+		meta["ph"] = eh(v)
+	}
+	if v := ibctm.GetIterationKey(plain, ss.LatestHeight); v != nil {
+		meta["it"] = hx.H(v)
+	}
+	h.extra = append(h.extra, extraRec{"recwrites", map[string]any{"c": pre[0], "s": pre[1]},
+		map[string]any{"res": res, "subject": sw, "substitute": tw, "meta": meta}, "trace"})
+}
+
+// traceUpgrade runs the real VerifyUpgradeAndUpdateState on a write-tracing store (discarded cache context).
+func (h *hist) traceUpgrade(cid string, uc *ibctm.ClientState, ucs *ibctm.ConsensusState, proofClient, proofCons []byte) {
+	cctx, _ := h.ctx().CacheContext()
+	k := h.e.ibc().ClientKeeper
+	cs := h.e.tmState(cctx, cid)
+	if cs == nil {
+		return
+	}
+	ws := [][]string{}
+	store := recStore{KVStore: k.ClientStore(cctx, cid), w: &ws}
+	res := outcome(func() error {
+		return cs.VerifyUpgradeAndUpdateState(cctx, h.e.A.App.AppCodec(), store, uc, ucs, proofClient, proofCons)
+	})
+	h.extra = append(h.extra, extraRec{"upgwrites", map[string]any{"h": hj(uc.LatestHeight)},
+		map[string]any{"res": res, "writes": ws}, "trace"})
 }
 
 func newHist(e *env, r *hx.Rng, ids, others []string) *hist {
@@ -117,6 +191,9 @@ func (h *hist) finish(o *hx.Out, tag string) {
 	o.Emit("hist",
 		map[string]any{"w0": h.w0, "ops": h.ops, "mem": h.mem, "non": h.non, "encc": h.encc, "encs": h.encs},
 		map[string]any{"obs": h.obs, "final": final}, tag)
+	for _, x := range h.extra {
+		o.Emit(x.kind, x.in, x.out, x.tag+"/"+tag)
+	}
 }
 
 // ---- operations ------------------------------------------------------------------------------------
@@ -273,6 +350,7 @@ func (h *hist) chanInit(cid string, ep *ibctesting.Endpoint) string {
 }
 
 func (h *hist) recoverClient(subj, subst string) string {
+	h.traceRecover(subj, subst)
 	h.pre = h.full()
 	res := h.run(func(ctx sdk.Context) error { return h.e.ibc().ClientKeeper.RecoverClient(ctx, subj, subst) })
 	h.ops = append(h.ops, map[string]any{"op": "rec", "s": cidNum(subj), "t": cidNum(subst)})
@@ -337,6 +415,7 @@ func (h *hist) upgrade(cid string, uc *ibctm.ClientState, ucs *ibctm.ConsensusSt
 	if err != nil {
 		panic(err)
 	}
+	h.traceUpgrade(cid, uc, ucs, proofClient, proofCons)
 	h.pre = h.full()
 	res := h.run(func(ctx sdk.Context) error {
 		return h.e.ibc().ClientKeeper.UpgradeClient(ctx, cid, ucAny.Value, ucsAny.Value, proofClient, proofCons)
